@@ -129,3 +129,21 @@ example : EndsE (.ifE (.int 1) (.int 2) (some (.ident "x"))) 0 (initSt []) (.ok 
     ⟨1, by simp [evalE, pureM], by simp [R.notFuel]⟩
 
 end Pangaea.C12
+
+namespace Pangaea.C12
+open Pangaea.Core Pangaea.C07
+
+/-- **`!c` is the negation of the same rule**: for a scalar / array condition value (anything that is not an object
+    with its own `!`, nor standard input) `!c` is `true` exactly when `c` is not truthy; the operand is evaluated once. -/
+theorem not_core {e : Expr} {env : Nat} {s s1 : St} {v : Val}
+    (hv : GivesE e env s v s1) (hplain : (match v with | .obj _ => False | .diamond => False | _ => True)) :
+    GivesE (.pref "!" e) env s (.bool (!v.truthy)) s1 := by
+  obtain ⟨f, hf⟩ := hv
+  refine ⟨f + 3, ?_⟩
+  have h1 := evalE_lift hf (by simp [R.notFuel]) (Nat.le_add_right f 2)
+  rw [evalE]
+  simp only [show (("!" : String) == "*") = false by decide, Bool.false_eq_true, ↓reduceIte, bindM, h1,
+    show (("!" : String) == "+") = false by decide, show (("!" : String) == "-") = false by decide]
+  cases v <;> simp_all [callPropQuiet, hasBuiltin, commonProps, builtinCall, pureBuiltin, pureM]
+
+end Pangaea.C12
